@@ -453,8 +453,32 @@ class FirstMatch(_Bodies):
 
     def process(self, body):
         out = []
+        # a generator expression held in a local that is used once, as the first argument of next(): written in place
+        body = list(body)
+        for i_, st in enumerate(body):
+            v = st.value if isinstance(st, ast.Assign) and len(st.targets) == 1 and isinstance(st.targets[0], ast.Name) else None
+            if self.fn and isinstance(v, ast.Call) and isinstance(v.func, ast.Name) and v.func.id == "next" and len(v.args) == 2 and isinstance(v.args[0], ast.Name):
+                g_ = v.args[0].id
+                uses = [y for y in ast.walk(self.fn[-1]) if isinstance(y, ast.Name) and y.id == g_]
+                defs = [(j_, s_) for j_, s_ in enumerate(body[:i_]) if isinstance(s_, ast.Assign) and len(s_.targets) == 1
+                        and isinstance(s_.targets[0], ast.Name) and s_.targets[0].id == g_ and isinstance(s_.value, ast.GeneratorExp)]
+                between_ok = defs and all(isinstance(s_, ast.Assign) and not any(isinstance(y, ast.Call) and not (
+                    isinstance(y.func, ast.Name) and y.func.id == "object") for y in ast.walk(s_.value)) for s_ in body[defs[-1][0] + 1:i_])
+                if len(uses) == 2 and len(defs) == 1 and between_ok:
+                    v.args[0] = defs[0][1].value
+                    body[defs[0][0]] = None
+        body = [s_ for s_ in body if s_ is not None]
         for st in body:
             v = st.value if isinstance(st, ast.Assign) and len(st.targets) == 1 and isinstance(st.targets[0], ast.Name) else None
+            if self.fn and isinstance(v, ast.Call) and isinstance(v.func, ast.Name) and v.func.id == "next" and len(v.args) == 2 and not v.keywords \
+                    and isinstance(v.args[0], ast.GeneratorExp) and len(v.args[0].generators) == 1 \
+                    and st.targets[0].id in {y.id for y in ast.walk(v.args[0].generators[0].target) if isinstance(y, ast.Name)} \
+                    and not any(isinstance(y, ast.Name) and y.id == st.targets[0].id for y in ast.walk(v.args[0].generators[0].iter)):
+                # x = next((.. for x in ..), d): the generator's own x is another variable - it gets another name
+                tn_ = st.targets[0].id
+                for y in ast.walk(v.args[0]):
+                    if isinstance(y, ast.Name) and y.id == tn_:
+                        y.id = "_fm_" + tn_
             if self.fn and isinstance(v, ast.Call) and isinstance(v.func, ast.Name) and v.func.id == "next" and len(v.args) == 2 and not v.keywords \
                     and isinstance(v.args[0], ast.GeneratorExp) and len(v.args[0].generators) == 1 and not v.args[0].generators[0].is_async \
                     and isinstance(v.args[1], (ast.Constant, ast.Name)):
